@@ -392,4 +392,535 @@ theorem macInput_injective (a n c a' n' c' : Bytes) (ha : aadTooLong a = false) 
   exact ⟨e1, e2, e3⟩
 
 
+
+/-! ### AES key wrap -/
+
+theorem kw_step_inv (enc dec : Bytes → Bytes) (hlen : ∀ b, b.length = 16 → (enc b).length = 16)
+    (hde : ∀ b, b.length = 16 → dec (enc b) = b) (t : Nat) (iv c : Bytes) (hiv : iv.length = 8) (hc : c.length = 8) :
+    kwUnwrapStep dec t (kwWrapStep enc t iv c).1 (kwWrapStep enc t iv c).2 = (iv, c)
+    ∧ (kwWrapStep enc t iv c).1.length = 8 ∧ (kwWrapStep enc t iv c).2.length = 8 := by
+  have hb : (iv ++ c).length = 16 := by simp [hiv, hc]
+  have hel := hlen _ hb
+  have ht8 : ((enc (iv ++ c)).take 8).length = 8 := by simp [List.length_take, hel]
+  refine ⟨?_, ?_, ?_⟩
+  · simp only [kwUnwrapStep, kwWrapStep]
+    rw [xor_xor_cancel _ _ (by rw [ht8, be64_length]; exact Nat.le_refl _), List.take_append_drop, hde _ hb,
+      List.take_left' hiv, List.drop_left' hiv]
+  · simp only [kwWrapStep, xor_length, ht8, be64_length]; rfl
+  · simp only [kwWrapStep, List.length_drop, hel]
+
+theorem kw_pass_inv (enc dec : Bytes → Bytes) (hlen : ∀ b, b.length = 16 → (enc b).length = 16)
+    (hde : ∀ b, b.length = 16 → dec (enc b) = b) (base : Nat) :
+    ∀ (cs : List Bytes) (iv : Bytes) (i : Nat), iv.length = 8 → (∀ c ∈ cs, c.length = 8) →
+      kwUnwrapPass dec base (kwWrapPass enc base iv cs i).1 (kwWrapPass enc base iv cs i).2 i = (iv, cs)
+      ∧ (kwWrapPass enc base iv cs i).1.length = 8 ∧ (∀ c ∈ (kwWrapPass enc base iv cs i).2, c.length = 8)
+  | [], iv, i, hiv, _ => by simp [kwWrapPass, kwUnwrapPass, hiv]
+  | c :: cs, iv, i, hiv, h => by
+    have hc : c.length = 8 := h c (by simp)
+    obtain ⟨s1, s2, s3⟩ := kw_step_inv enc dec hlen hde (base + i + 1) iv c hiv hc
+    obtain ⟨r1, r2, r3⟩ := kw_pass_inv enc dec hlen hde base cs (kwWrapStep enc (base + i + 1) iv c).1 (i + 1) s2
+      (fun d hd => h d (by simp [hd]))
+    refine ⟨?_, ?_, ?_⟩
+    · simp only [kwWrapPass, kwUnwrapPass, r1, s1]
+    · simpa only [kwWrapPass] using r2
+    · intro d hd
+      simp only [kwWrapPass, List.mem_cons] at hd
+      cases hd with
+      | inl e => rw [e]; exact s3
+      | inr e => exact r3 d e
+
+theorem kwWrapPass_length (enc : Bytes → Bytes) (base : Nat) :
+    ∀ (cs : List Bytes) (iv : Bytes) (i : Nat), (kwWrapPass enc base iv cs i).2.length = cs.length
+  | [], _, _ => by simp [kwWrapPass]
+  | c :: cs, iv, i => by simp [kwWrapPass, kwWrapPass_length enc base cs]
+
+theorem kw_passes_inv (enc dec : Bytes → Bytes) (hlen : ∀ b, b.length = 16 → (enc b).length = 16)
+    (hde : ∀ b, b.length = 16 → dec (enc b) = b) (blocks : Nat) :
+    ∀ (k j : Nat) (iv : Bytes) (cs : List Bytes), iv.length = 8 → (∀ c ∈ cs, c.length = 8) →
+      kwUnwrapPasses dec blocks k j (kwWrapPasses enc blocks k j iv cs).1 (kwWrapPasses enc blocks k j iv cs).2 = (iv, cs)
+      ∧ (kwWrapPasses enc blocks k j iv cs).1.length = 8 ∧ (∀ c ∈ (kwWrapPasses enc blocks k j iv cs).2, c.length = 8)
+      ∧ (kwWrapPasses enc blocks k j iv cs).2.length = cs.length
+  | 0, _, iv, cs, hiv, h => by simp [kwWrapPasses, kwUnwrapPasses, hiv]; exact h
+  | k + 1, j, iv, cs, hiv, h => by
+    obtain ⟨p1, p2, p3⟩ := kw_pass_inv enc dec hlen hde (blocks * j) cs iv 0 hiv h
+    obtain ⟨r1, r2, r3, r4⟩ := kw_passes_inv enc dec hlen hde blocks k (j + 1) _ _ p2 p3
+    have hlenpass := kwWrapPass_length enc (blocks * j) cs iv 0
+    refine ⟨?_, ?_, ?_, ?_⟩
+    · simp only [kwWrapPasses, kwUnwrapPasses, r1, p1]
+    · simpa only [kwWrapPasses] using r2
+    · simpa only [kwWrapPasses] using r3
+    · simp only [kwWrapPasses]; rw [r4, hlenpass]
+
+theorem kwIv_length : kwIv.length = 8 := by decide
+
+theorem kw_roundtrip (C : BlockCipher) (hC : C.Lawful) (key p : Bytes) (hp : p.length % 8 = 0) :
+    ∃ buf, kwEncrypt C key p [] [] = .ok (buf, p.length + 8) ∧ buf.length = p.length + 8 ∧
+      kwDecrypt C key buf [] [] = .ok p := by
+  have hn : 8 * (p.length / 8) = p.length := by have := Nat.div_add_mod p.length 8; omega
+  obtain ⟨r1, r2, r3, r4⟩ := kw_passes_inv (C.enc key) (C.dec key) (hC.enc_len key) (hC.dec_enc key) (p.length / 8) 6 0
+    kwIv (Cbc.chunks 8 p) kwIv_length (chunks_all_length 8 p)
+  generalize hr : kwWrapPasses (C.enc key) (p.length / 8) 6 0 kwIv (Cbc.chunks 8 p) = r at r1 r2 r3 r4
+  have hfl : r.2.flatten.length = p.length := by
+    rw [flatten_length_of_all 8 _ r3, r4, chunks_length, hn]
+  refine ⟨r.1 ++ r.2.flatten, ?_, by simp [r2, hfl]; omega, ?_⟩
+  · unfold kwEncrypt
+    have e1 : 8 ≤ (zeros 8 ++ p).length := by simp [zeros]
+    have e2 : (zeros 8 ++ p).drop 8 = p := List.drop_left' (by simp [zeros])
+    have e3 : (zeros 8 ++ p).take 8 = zeros 8 := List.take_left' (by simp [zeros])
+    simp only [List.isEmpty_nil, Bool.not_true, Bool.false_eq_true, if_false, hp, ne_eq, not_true_eq_false, sliceFrom, e1, if_true,
+      bind_ok, e2, e3, hn, List.drop_length, List.append_nil, hr, copyInto]
+    have e4 : 0 ≤ 8 ∧ 8 ≤ (zeros 8 ++ r.2.flatten).length := by simp [zeros]
+    have e5 : r.1.length = 8 - 0 := by simp [r2]
+    have e6 : (zeros 8 ++ r.2.flatten).drop 8 = r.2.flatten := List.drop_left' (by simp [zeros])
+    rw [if_pos e4, if_pos e5, e6]
+    simp only [List.take_zero, List.nil_append, bind_ok, List.length_append, r2, hfl]
+    rw [Nat.add_comm]
+  · unfold kwDecrypt
+    have e1 : (r.1 ++ r.2.flatten).length = p.length + 8 := by simp [r2, hfl]; omega
+    have e2 : (p.length + 8) % 8 = 0 := by omega
+    have e3 : ¬ (p.length + 8) / 8 < 1 := by omega
+    have e4 : (p.length + 8) / 8 - 1 = p.length / 8 := by omega
+    have e5 : 0 ≤ 8 ∧ 8 ≤ p.length + 8 := by omega
+    have e6 : (r.1 ++ r.2.flatten).take 8 = r.1 := List.take_left' r2
+    have e7 : (r.1 ++ r.2.flatten).drop 8 = r.2.flatten := List.drop_left' r2
+    have e8 : 8 ≤ p.length + 8 := by omega
+    simp only [List.isEmpty_nil, Bool.not_true, Bool.false_eq_true, if_false, e1, e2, ne_eq, not_true_eq_false, e3, e4, sliceRange, e5,
+      and_self, if_true, bind_ok, e6, List.drop_zero, tryInto8, r2, drainFront, e7, chunks_flatten 8 (by decide) _ r3, r1,
+      flatten_chunks 8 p hp, hfl, hn]
+    have hsum := hfl
+    rw [List.length_flatten] at hsum
+    simp [hsum]
+
+/-- `decrypt_in_place` succeeds only if the IV recovered by the six unwrap passes is A6…A6 -/
+theorem kw_checks_iv (C : BlockCipher) (key c nonce aad p : Bytes) (h : kwDecrypt C key c nonce aad = .ok p) :
+    (kwUnwrapPasses (C.dec key) (c.length / 8 - 1) 6 0 (c.take 8) (Cbc.chunks 8 (c.drop 8))).1 = kwIv
+    ∧ nonce = [] ∧ aad = [] ∧ c.length % 8 = 0 ∧ 8 ≤ c.length := by
+  unfold kwDecrypt at h
+  by_cases h1 : nonce.isEmpty
+  · by_cases h2 : aad.isEmpty
+    · by_cases h3 : c.length % 8 = 0
+      · by_cases h4 : c.length / 8 < 1
+        · simp [h1, h2, h3, h4] at h
+        · have h5 : 8 ≤ c.length := by omega
+          have e5 : 0 ≤ 8 ∧ 8 ≤ c.length := ⟨by omega, h5⟩
+          have e6 : (c.take 8).length = 8 := by simp [List.length_take]; omega
+          simp only [h1, h2, Bool.not_true, Bool.false_eq_true, if_false, h3, ne_eq, not_true_eq_false, h4, sliceRange, e5, and_self,
+            if_true, bind_ok, List.drop_zero, tryInto8, e6, drainFront] at h
+          split at h
+          · rename_i hiv
+            exact ⟨hiv, by simpa using h1, by simpa using h2, h3, h5⟩
+          · cases h
+      · simp [h1, h2, h3] at h
+    · simp [h1, h2] at h
+  · simp [h1] at h
+
+
+/-! ### wrappers of the detached AEADs -/
+
+theorem streamAead_roundtrip (A : AeadPrim) (hA : A.Lawful) (nl : Nat) (sk : Kind) (key m nonce aad buf : Bytes) (pos : Nat)
+    (h : streamEncrypt A nl key m nonce aad = .ok (buf, pos)) :
+    pos = m.length ∧ buf.length = m.length + A.tagLen ∧ nonce.length = nl ∧
+      streamDecrypt A nl sk key buf nonce aad = .ok m := by
+  unfold streamEncrypt at h
+  by_cases hn : nonce.length = nl
+  · simp only [hn, ne_eq, not_true_eq_false, if_false, fromSlice, if_true, bind_ok] at h
+    cases he : A.enc key nonce aad m with
+    | none => simp [he] at h
+    | some r =>
+      obtain ⟨ct, tag⟩ := r
+      simp only [he, Res.ok.injEq, Prod.mk.injEq] at h
+      obtain ⟨hb, hp⟩ := h
+      obtain ⟨l1, l2⟩ := hA.enc_len _ _ _ _ _ _ he
+      have hd := hA.dec_enc _ _ _ _ _ _ he
+      subst hb
+      refine ⟨hp.symm, by simp [l1, l2], hn, ?_⟩
+      unfold streamDecrypt
+      have e1 : ¬ (ct ++ tag).length < A.tagLen := by simp [l2]
+      have e2 : (ct ++ tag).length - A.tagLen = ct.length := by simp [l2]
+      have e3 : ct.length ≤ (ct ++ tag).length := by simp
+      simp only [hn, ne_eq, not_true_eq_false, if_false, e1, e2, fromSlice, if_true, bind_ok, sliceFrom, e3, sliceTo,
+        List.drop_left' rfl, List.take_left' rfl, l2, hd]
+  · simp [hn] at h
+
+/-- a tag the primitive rejects is reported as the AEAD error; no plaintext is released -/
+theorem streamAead_reject (A : AeadPrim) (nl : Nat) (sk : Kind) (key ct tag nonce aad : Bytes) (hn : nonce.length = nl)
+    (ht : tag.length = A.tagLen) (hd : A.dec key nonce aad ct tag = none) :
+    streamDecrypt A nl sk key (ct ++ tag) nonce aad = .err aeadDecErr := by
+  unfold streamDecrypt
+  have e1 : ¬ (ct ++ tag).length < A.tagLen := by simp [ht]
+  have e2 : (ct ++ tag).length - A.tagLen = ct.length := by simp [ht]
+  have e3 : ct.length ≤ (ct ++ tag).length := by simp
+  simp only [hn, ne_eq, not_true_eq_false, if_false, e1, e2, fromSlice, if_true, bind_ok, sliceFrom, e3, sliceTo,
+    List.drop_left' rfl, List.take_left' rfl, ht, hd]
+
+/-! ### no `panic` branch is reachable -/
+
+theorem streamEncrypt_noPanic (A : AeadPrim) (nl : Nat) (key m nonce aad : Bytes) :
+    (streamEncrypt A nl key m nonce aad).isPanic = false := by
+  unfold streamEncrypt
+  by_cases hn : nonce.length = nl
+  · simp only [hn, ne_eq, not_true_eq_false, if_false, fromSlice, if_true, bind_ok]
+    cases A.enc key nonce aad m with
+    | none => rfl
+    | some r => rfl
+  · simp [hn, Res.isPanic]
+
+theorem streamDecrypt_noPanic (A : AeadPrim) (nl : Nat) (sk : Kind) (key buf nonce aad : Bytes) :
+    (streamDecrypt A nl sk key buf nonce aad).isPanic = false := by
+  unfold streamDecrypt
+  by_cases hn : nonce.length = nl
+  · by_cases hb : buf.length < A.tagLen
+    · simp [hn, hb, Res.isPanic]
+    · have e1 : buf.length - A.tagLen ≤ buf.length := Nat.sub_le _ _
+      have e2 : (buf.drop (buf.length - A.tagLen)).length = A.tagLen := by simp [List.length_drop]; omega
+      simp only [hn, ne_eq, not_true_eq_false, if_false, hb, fromSlice, if_true, bind_ok, sliceFrom, e1, sliceTo, e2]
+      cases A.dec key nonce aad (buf.take (buf.length - A.tagLen)) (buf.drop (buf.length - A.tagLen)) with
+      | none => rfl
+      | some r => rfl
+  · simp [hn, Res.isPanic]
+
+theorem cbcHmacEncrypt_noPanic (C : BlockCipher) (hC : C.Lawful) (M : Mac) (hM : M.Lawful) (K : Nat) (key m nonce aad : Bytes)
+    (hk : key.length = 2 * K) : (cbcHmacEncrypt C M K key m nonce aad).isPanic = false := by
+  by_cases hn : nonce.length = 16
+  · by_cases hK : K ≤ M.outLen
+    · cases ha : aadTooLong aad with
+      | false => rw [(cbcHmacEncrypt_eq C hC M hM K key m nonce aad hn ha hk hK).1]; rfl
+      | true =>
+        have : ¬ K > M.outLen := by omega
+        simp [cbcHmacEncrypt, hn, this, ha, Res.isPanic]
+    · have : K > M.outLen := by omega
+      simp [cbcHmacEncrypt, hn, this, Res.isPanic]
+  · simp [cbcHmacEncrypt, hn, Res.isPanic]
+
+theorem cbcHmacDecrypt_noPanic (fixed : Bool) (C : BlockCipher) (M : Mac) (hM : M.Lawful) (K : Nat) (key buf nonce aad : Bytes)
+    (hk : key.length = 2 * K) (hK : K ≤ M.outLen) : (cbcHmacDecrypt fixed C M K key buf nonce aad).isPanic = false := by
+  by_cases hn : nonce.length = 16
+  · cases ha : aadTooLong aad with
+    | true => simp [cbcHmacDecrypt, hn, ha, Res.isPanic]
+    | false =>
+      by_cases hb : buf.length < K
+      · simp [cbcHmacDecrypt, hn, ha, hb, Res.isPanic]
+      · have hsplit : buf = buf.take (buf.length - K) ++ buf.drop (buf.length - K) := (List.take_append_drop _ _).symm
+        have ht : (buf.drop (buf.length - K)).length = K := by simp [List.length_drop]; omega
+        have hml : (M.mac (key.take K) (macInput aad nonce (buf.take (buf.length - K)))).length = M.outLen := hM.mac_len _ _
+        rw [hsplit, cbcHmacDecrypt_eq fixed C M K key _ _ nonce aad hn ha ht hk (by omega)]
+        split
+        · rfl
+        · split
+          · rfl
+          · split <;> rfl
+  · simp [cbcHmacDecrypt, hn, Res.isPanic]
+
+theorem kwEncrypt_noPanic (C : BlockCipher) (hC : C.Lawful) (key m nonce aad : Bytes) :
+    (kwEncrypt C key m nonce aad).isPanic = false := by
+  by_cases h1 : nonce = []
+  · by_cases h2 : aad = []
+    · by_cases h3 : m.length % 8 = 0
+      · subst h1; subst h2
+        obtain ⟨buf, he, _, _⟩ := kw_roundtrip C hC key m h3
+        rw [he]; rfl
+      · simp [kwEncrypt, h1, h2, h3, Res.isPanic]
+    · have : aad.isEmpty = false := by cases aad <;> simp_all
+      simp [kwEncrypt, h1, this, Res.isPanic]
+  · have : nonce.isEmpty = false := by cases nonce <;> simp_all
+    simp [kwEncrypt, this, Res.isPanic]
+
+theorem kwDecrypt_noPanic (C : BlockCipher) (key buf nonce aad : Bytes) :
+    (kwDecrypt C key buf nonce aad).isPanic = false := by
+  unfold kwDecrypt
+  by_cases h1 : nonce.isEmpty
+  · by_cases h2 : aad.isEmpty
+    · by_cases h3 : buf.length % 8 = 0
+      · by_cases h4 : buf.length / 8 < 1
+        · simp [h1, h2, h3, h4, Res.isPanic]
+        · have h5 : 8 ≤ buf.length := by omega
+          have e5 : 0 ≤ 8 ∧ 8 ≤ buf.length := ⟨by omega, h5⟩
+          have e6 : (buf.take 8).length = 8 := by simp [List.length_take]; omega
+          simp only [h1, h2, Bool.not_true, Bool.false_eq_true, if_false, h3, ne_eq, not_true_eq_false, h4, sliceRange, e5, and_self,
+            if_true, bind_ok, List.drop_zero, tryInto8, e6, drainFront]
+          split <;> rfl
+      · simp [h1, h2, h3, Res.isPanic]
+    · simp [h1, h2, Res.isPanic]
+  · simp [h1, Res.isPanic]
+
+
+
+/-! ### dispatch and `LocalKey` -/
+
+theorem fromSecretBytes_ok (alg : Alg) (secret : Bytes) (k : Key) (h : fromSecretBytes alg secret = .ok k) :
+    k.alg = alg ∧ k.bytes = secret ∧ k.bytes.length = k.alg.keyLen := by
+  unfold fromSecretBytes at h
+  by_cases hl : secret.length = alg.keyLen
+  · simp only [hl, ne_eq, not_true_eq_false, if_false, Res.ok.injEq] at h
+    subst h; exact ⟨rfl, rfl, hl⟩
+  · simp [hl] at h
+
+theorem encryptInPlace_noPanic (P : Prims) (hP : P.Lawful) (k : Key) (hk : k.bytes.length = k.alg.keyLen) (m nonce aad : Bytes) :
+    (encryptInPlace P k m nonce aad).isPanic = false := by
+  unfold encryptInPlace
+  cases ha : k.alg <;> simp only [ha, Alg.keyLen] at hk ⊢
+  · exact streamEncrypt_noPanic _ _ _ _ _ _
+  · exact streamEncrypt_noPanic _ _ _ _ _ _
+  · exact cbcHmacEncrypt_noPanic _ hP.aes128 _ hP.hmac256 16 _ _ _ _ hk
+  · exact cbcHmacEncrypt_noPanic _ hP.aes256 _ hP.hmac512 32 _ _ _ _ hk
+  · exact kwEncrypt_noPanic _ hP.aes128 _ _ _ _
+  · exact kwEncrypt_noPanic _ hP.aes256 _ _ _ _
+  · exact streamEncrypt_noPanic _ _ _ _ _ _
+  · exact streamEncrypt_noPanic _ _ _ _ _ _
+  · rfl
+
+theorem decryptInPlace_noPanic (fixed : Bool) (P : Prims) (hP : P.Lawful) (k : Key) (hk : k.bytes.length = k.alg.keyLen)
+    (buf nonce aad : Bytes) : (decryptInPlace fixed P k buf nonce aad).isPanic = false := by
+  unfold decryptInPlace
+  cases ha : k.alg <;> simp only [ha, Alg.keyLen] at hk ⊢
+  · exact streamDecrypt_noPanic _ _ _ _ _ _ _
+  · exact streamDecrypt_noPanic _ _ _ _ _ _ _
+  · exact cbcHmacDecrypt_noPanic _ _ _ hP.hmac256 16 _ _ _ _ hk (by rw [hP.hmac256_len]; decide)
+  · exact cbcHmacDecrypt_noPanic _ _ _ hP.hmac512 32 _ _ _ _ hk (by rw [hP.hmac512_len]; decide)
+  · exact kwDecrypt_noPanic _ _ _ _ _
+  · exact kwDecrypt_noPanic _ _ _ _ _
+  · exact streamDecrypt_noPanic _ _ _ _ _ _ _
+  · exact streamDecrypt_noPanic _ _ _ _ _ _ _
+  · rfl
+
+theorem bind_noPanic {α β : Type} (r : Res α) (f : α → Res β) (h1 : r.isPanic = false) (h2 : ∀ a, (f a).isPanic = false) :
+    (r >>= f).isPanic = false := by
+  cases r with
+  | ok a => exact h2 a
+  | err e => rfl
+  | panic p => simp [Res.isPanic] at h1
+
+theorem kw_inPlace (C : BlockCipher) (hC : C.Lawful) (key m nonce aad buf : Bytes) (pos : Nat)
+    (h : kwEncrypt C key m nonce aad = .ok (buf, pos)) : pos ≤ buf.length ∧ kwDecrypt C key buf nonce aad = .ok m := by
+  have h1 : nonce = [] := by
+    cases nonce with
+    | nil => rfl
+    | cons x xs => simp [kwEncrypt] at h
+  have h2 : aad = [] := by
+    cases aad with
+    | nil => rfl
+    | cons x xs => simp [kwEncrypt, h1] at h
+  subst h1; subst h2
+  have h3 : m.length % 8 = 0 := by
+    apply Classical.byContradiction; intro hne; simp [kwEncrypt, hne] at h
+  obtain ⟨b, he, hl, hd⟩ := kw_roundtrip C hC key m h3
+  rw [he] at h
+  simp only [Res.ok.injEq, Prod.mk.injEq] at h
+  obtain ⟨e1, e2⟩ := h
+  subst e1; subst e2
+  exact ⟨by omega, hd⟩
+
+/-- what `encrypt_in_place` returns decrypts to the message, and the returned position lies inside the buffer -/
+theorem encrypt_decrypt_inPlace (fixed : Bool) (P : Prims) (hP : P.Lawful) (k : Key) (hk : k.bytes.length = k.alg.keyLen)
+    (m nonce aad buf : Bytes) (pos : Nat) (h : encryptInPlace P k m nonce aad = .ok (buf, pos)) :
+    pos ≤ buf.length ∧ decryptInPlace fixed P k buf nonce aad = .ok m := by
+  unfold encryptInPlace at h
+  unfold decryptInPlace
+  cases ha : k.alg <;> simp only [ha, Alg.keyLen] at hk h ⊢
+  · obtain ⟨a, b, _, d⟩ := streamAead_roundtrip _ hP.gcm128 12 .Encryption _ _ _ _ _ _ h
+    exact ⟨by omega, d⟩
+  · obtain ⟨a, b, _, d⟩ := streamAead_roundtrip _ hP.gcm256 12 .Encryption _ _ _ _ _ _ h
+    exact ⟨by omega, d⟩
+  · have hn : nonce.length = 16 := by
+      apply Classical.byContradiction; intro hne; simp [cbcHmacEncrypt, hne] at h
+    have hK : 16 ≤ P.hmac256.outLen := by rw [hP.hmac256_len]; decide
+    have haad : aadTooLong aad = false := by
+      cases hx : aadTooLong aad with
+      | false => rfl
+      | true =>
+        have : ¬ 16 > P.hmac256.outLen := by omega
+        simp [cbcHmacEncrypt, hn, hx, this] at h
+    obtain ⟨b, he, hl, hd⟩ := cbcHmac_roundtrip fixed _ hP.aes128 _ hP.hmac256 16 _ m nonce aad hn haad hk hK
+    rw [he] at h
+    simp only [Res.ok.injEq, Prod.mk.injEq] at h
+    obtain ⟨h1, h2⟩ := h
+    subst h1; subst h2
+    exact ⟨by omega, hd⟩
+  · have hn : nonce.length = 16 := by
+      apply Classical.byContradiction; intro hne; simp [cbcHmacEncrypt, hne] at h
+    have hK : 32 ≤ P.hmac512.outLen := by rw [hP.hmac512_len]; decide
+    have haad : aadTooLong aad = false := by
+      cases hx : aadTooLong aad with
+      | false => rfl
+      | true =>
+        have : ¬ 32 > P.hmac512.outLen := by omega
+        simp [cbcHmacEncrypt, hn, hx, this] at h
+    obtain ⟨b, he, hl, hd⟩ := cbcHmac_roundtrip fixed _ hP.aes256 _ hP.hmac512 32 _ m nonce aad hn haad hk hK
+    rw [he] at h
+    simp only [Res.ok.injEq, Prod.mk.injEq] at h
+    obtain ⟨h1, h2⟩ := h
+    subst h1; subst h2
+    exact ⟨by omega, hd⟩
+  · exact kw_inPlace P.aes128 hP.aes128 _ _ _ _ _ _ h
+  · exact kw_inPlace P.aes256 hP.aes256 _ _ _ _ _ _ h
+  · obtain ⟨a, b, _, d⟩ := streamAead_roundtrip _ hP.c20p 12 .Invalid _ _ _ _ _ _ h
+    exact ⟨by omega, d⟩
+  · obtain ⟨a, b, _, d⟩ := streamAead_roundtrip _ hP.xc20p 24 .Invalid _ _ _ _ _ _ h
+    exact ⟨by omega, d⟩
+  · cases h
+
+
+
+theorem layout_core (buf nonce' : Bytes) (pos : Nat) (hpos : pos ≤ buf.length) :
+    let e : Encrypted := ⟨if !nonce'.isEmpty then buf ++ nonce' else buf, pos, buf.length⟩
+    e.buffer = buf.take pos ++ buf.drop pos ++ nonce' ∧ e.tagPos = (buf.take pos).length ∧
+    e.noncePos = (buf.take pos).length + (buf.drop pos).length ∧
+    e.ciphertext = .ok (buf.take pos) ∧ e.tag = .ok (buf.drop pos) ∧ e.nonce = .ok nonce' := by
+  have hb : (if !nonce'.isEmpty then buf ++ nonce' else buf) = buf ++ nonce' := by
+    cases nonce' <;> simp
+  simp only [hb, List.take_append_drop]
+  have e1 : 0 ≤ pos ∧ pos ≤ (buf ++ nonce').length := ⟨Nat.zero_le _, by simp; omega⟩
+  have e2 : pos ≤ buf.length ∧ buf.length ≤ (buf ++ nonce').length := ⟨hpos, by simp⟩
+  have e3 : buf.length ≤ (buf ++ nonce').length := by simp
+  refine ⟨trivial, by simp [List.length_take]; omega, by simp [List.length_take, List.length_drop]; omega, ?_, ?_, ?_⟩
+  · simp only [Encrypted.ciphertext, sliceRange, e1, and_self, if_true, List.drop_zero, List.take_append_of_le_length hpos]
+  · simp only [Encrypted.tag, sliceRange, e2, and_self, if_true, List.take_left' rfl]
+  · simp only [Encrypted.nonce, sliceFrom, e3, if_true, List.drop_left' rfl]
+
+theorem localKey_layout (fixed : Bool) (P : Prims) (hP : P.Lawful) (k : Key) (hk : k.bytes.length = k.alg.keyLen)
+    (rnd m nonce aad : Bytes) (e : Encrypted) (h : aeadEncrypt P rnd k m nonce aad = .ok e) :
+    ∃ ct tag nonce', nonce' = (if nonce.isEmpty && k.alg.params.1 > 0 then rnd else nonce) ∧
+      e.buffer = ct ++ tag ++ nonce' ∧ e.tagPos = ct.length ∧ e.noncePos = ct.length + tag.length ∧
+      e.ciphertext = .ok ct ∧ e.tag = .ok tag ∧ e.nonce = .ok nonce' ∧
+      aeadDecrypt fixed P k ct tag nonce' aad = .ok m := by
+  unfold aeadEncrypt at h
+  generalize hn' : (if nonce.isEmpty && k.alg.params.1 > 0 then rnd else nonce) = nonce' at h
+  cases hr : encryptInPlace P k m nonce' aad with
+  | err er => simp [hr] at h
+  | panic p => simp [hr] at h
+  | ok r =>
+    obtain ⟨buf, pos⟩ := r
+    obtain ⟨hpos, hd⟩ := encrypt_decrypt_inPlace fixed P hP k hk m nonce' aad buf pos hr
+    simp only [hr, bind_ok, Res.ok.injEq] at h
+    obtain ⟨l1, l2, l3, l4, l5, l6⟩ := layout_core buf nonce' pos hpos
+    subst h
+    refine ⟨buf.take pos, buf.drop pos, nonce', rfl, l1, l2, l3, l4, l5, l6, ?_⟩
+    simp only [aeadDecrypt, List.take_append_drop, hd]
+
+theorem wrapKey_roundtrip (fixed : Bool) (P : Prims) (hP : P.Lawful) (k payload : Key) (hk : k.bytes.length = k.alg.keyLen)
+    (hp : payload.bytes.length = payload.alg.keyLen) (nonce : Bytes) (e : Encrypted) (h : wrapKey P k payload nonce = .ok e) :
+    ∃ ct tag, e.buffer = ct ++ tag ++ nonce ∧ e.ciphertext = .ok ct ∧ e.tag = .ok tag ∧ e.nonce = .ok nonce ∧
+      unwrapKey fixed P k payload.alg ct tag nonce = .ok payload := by
+  unfold wrapKey at h
+  cases hr : encryptInPlace P k payload.bytes nonce [] with
+  | err er => simp [hr] at h
+  | panic p => simp [hr] at h
+  | ok r =>
+    obtain ⟨buf, pos⟩ := r
+    obtain ⟨hpos, hd⟩ := encrypt_decrypt_inPlace fixed P hP k hk payload.bytes nonce [] buf pos hr
+    simp only [hr, bind_ok, Res.ok.injEq] at h
+    obtain ⟨l1, l2, l3, l4, l5, l6⟩ := layout_core buf nonce pos hpos
+    have hb : (if !nonce.isEmpty then buf ++ nonce else buf) = buf ++ nonce := by cases nonce <;> simp
+    rw [hb] at l1 l4 l5 l6
+    subst h
+    refine ⟨buf.take pos, buf.drop pos, l1, l4, l5, l6, ?_⟩
+    simp only [unwrapKey, List.take_append_drop, hd, bind_ok, fromSecretBytes, hp, ne_eq, not_true_eq_false, if_false]
+
+/-- inputs of wrong length are errors (the named ones), and no input of any length reaches a panic -/
+theorem wrong_lengths_error (fixed : Bool) (P : Prims) (hP : P.Lawful) (alg : Alg) (secret : Bytes) :
+    (secret.length ≠ alg.keyLen → fromSecretBytes alg secret = .err ⟨.InvalidKeyData, .default⟩) ∧
+    (∀ k, fromSecretBytes alg secret = .ok k →
+      (∀ rnd m nonce aad, (aeadEncrypt P rnd k m nonce aad).isPanic = false) ∧
+      (∀ ct tag nonce aad, (aeadDecrypt fixed P k ct tag nonce aad).isPanic = false) ∧
+      (∀ payload nonce, (wrapKey P k payload nonce).isPanic = false) ∧
+      (∀ alg' ct tag nonce, (unwrapKey fixed P k alg' ct tag nonce).isPanic = false) ∧
+      (∀ rnd m nonce aad e, aeadEncrypt P rnd k m nonce aad = .ok e →
+        e.ciphertext.isPanic = false ∧ e.tag.isPanic = false ∧ e.nonce.isPanic = false)) := by
+  refine ⟨fun h => by simp [fromSecretBytes, h], ?_⟩
+  intro k hk
+  obtain ⟨_, _, hlen⟩ := fromSecretBytes_ok alg secret k hk
+  refine ⟨?_, ?_, ?_, ?_, ?_⟩
+  · intro rnd m nonce aad
+    unfold aeadEncrypt
+    exact bind_noPanic _ _ (encryptInPlace_noPanic P hP k hlen _ _ _) (fun _ => rfl)
+  · intro ct tag nonce aad
+    exact decryptInPlace_noPanic fixed P hP k hlen _ _ _
+  · intro payload nonce
+    unfold wrapKey
+    exact bind_noPanic _ _ (encryptInPlace_noPanic P hP k hlen _ _ _) (fun _ => rfl)
+  · intro alg' ct tag nonce
+    unfold unwrapKey
+    refine bind_noPanic _ _ (decryptInPlace_noPanic fixed P hP k hlen _ _ _) (fun b => ?_)
+    unfold fromSecretBytes
+    split <;> rfl
+  · intro rnd m nonce aad e he
+    obtain ⟨ct, tag, n', _, _, _, _, h1, h2, h3, _⟩ := localKey_layout fixed P hP k hlen rnd m nonce aad e he
+    rw [h1, h2, h3]; exact ⟨rfl, rfl, rfl⟩
+
+/-- the named errors for wrong lengths -/
+theorem wrong_nonce_length (fixed : Bool) (P : Prims) (k : Key) (buf nonce aad : Bytes)
+    (ha : k.alg ≠ .A128Kw ∧ k.alg ≠ .A256Kw ∧ k.alg ≠ .Ed25519) (hn : nonce.length ≠ k.alg.params.1) :
+    encryptInPlace P k buf nonce aad = .err ⟨.InvalidNonce, .default⟩ ∧
+    decryptInPlace fixed P k buf nonce aad = .err ⟨.InvalidNonce, .default⟩ := by
+  obtain ⟨a1, a2, a3⟩ := ha
+  unfold encryptInPlace decryptInPlace
+  cases hk : k.alg <;> simp only [hk, Alg.params] at hn a1 a2 a3 ⊢ <;>
+    first
+    | exact absurd rfl a1
+    | exact absurd rfl a2
+    | exact absurd rfl a3
+    | simp [streamEncrypt, streamDecrypt, cbcHmacEncrypt, cbcHmacDecrypt, hn]
+
+theorem short_buffer_error (fixed : Bool) (P : Prims) (hP : P.Lawful) (k : Key) (buf nonce aad : Bytes)
+    (ha : k.alg ≠ .A128Kw ∧ k.alg ≠ .A256Kw ∧ k.alg ≠ .Ed25519) (hn : nonce.length = k.alg.params.1)
+    (haad : aadTooLong aad = false) (hb : buf.length < k.alg.params.2) :
+    ∃ kind, decryptInPlace fixed P k buf nonce aad = .err ⟨kind, .invalidSize⟩ := by
+  obtain ⟨a1, a2, a3⟩ := ha
+  unfold decryptInPlace
+  cases hk : k.alg <;> simp only [hk, Alg.params] at hn hb a1 a2 a3 ⊢
+  · exact ⟨.Encryption, by simp [streamDecrypt, hn, hP.gcm128_tag, hb]⟩
+  · exact ⟨.Encryption, by simp [streamDecrypt, hn, hP.gcm256_tag, hb]⟩
+  · exact ⟨.Encryption, by simp [cbcHmacDecrypt, hn, haad, hb]⟩
+  · exact ⟨.Encryption, by simp [cbcHmacDecrypt, hn, haad, hb]⟩
+  · exact absurd rfl a1
+  · exact absurd rfl a2
+  · exact ⟨.Invalid, by simp [streamDecrypt, hn, hP.c20p_tag, hb]⟩
+  · exact ⟨.Invalid, by simp [streamDecrypt, hn, hP.xc20p_tag, hb]⟩
+  · exact absurd rfl a3
+
+theorem kw_wrong_length (C : BlockCipher) (key buf : Bytes) (h : buf.length % 8 ≠ 0) :
+    kwEncrypt C key buf [] [] = .err ⟨.Unsupported, .kwLen⟩ ∧ kwDecrypt C key buf [] [] = .err ⟨.Encryption, .kwLen⟩ := by
+  simp [kwEncrypt, kwDecrypt, h]
+
+
+/-! ### the toy instance satisfies all laws -/
+
+theorem xorByte_xorByte (c : UInt8) (b : Bytes) : xorByte c (xorByte c b) = b := by
+  simp only [xorByte, List.map_map]
+  have : ((fun x : UInt8 => x ^^^ c) ∘ fun x => x ^^^ c) = id := by
+    funext x; simp [UInt8.xor_assoc]
+  rw [this, List.map_id]
+
+theorem toyAead_lawful : toyAead.Lawful where
+  enc_len := by
+    intro k n a m c t h
+    simp only [toyAead, Option.some.injEq, Prod.mk.injEq] at h
+    obtain ⟨h1, h2⟩ := h
+    subst h1; subst h2
+    simp [xorByte, toyAead]
+  dec_enc := by
+    intro k n a m c t h
+    simp only [toyAead, Option.some.injEq, Prod.mk.injEq] at h
+    obtain ⟨h1, h2⟩ := h
+    subst h1; subst h2
+    simp [toyAead, xorByte_xorByte]
+
+/-- the hypotheses of the theorems are satisfiable -/
+theorem toyPrims_lawful : toyPrims.Lawful where
+  aes128 := toyCipher_lawful
+  aes256 := toyCipher_lawful
+  hmac256 := toyMac_lawful 32
+  hmac512 := toyMac_lawful 64
+  gcm128 := toyAead_lawful
+  gcm256 := toyAead_lawful
+  c20p := toyAead_lawful
+  xc20p := toyAead_lawful
+  hmac256_len := rfl
+  hmac512_len := rfl
+  gcm128_tag := rfl
+  gcm256_tag := rfl
+  c20p_tag := rfl
+  xc20p_tag := rfl
+
+
 end Askar.Aead.Lemmas
